@@ -595,8 +595,10 @@ public:
   }
 
   bool at(const element_t &e) const{
+    // e belongs to the set iff the set is below the singleton {e} in
+    // the dual order (its underlying set includes {e}).
     dual_set_domain_t s(e);
-    return (s <= *this);
+    return (*this <= s);
   }
   
   std::size_t size() { return m_set.size(); }
